@@ -56,7 +56,7 @@ CLAIMS = {
          'C08_unknown_creator(_report) (a creation section for a goroutine of no operation is an error and changes nothing), header matcher round trips; C08_no_creation_section documents that a report without any creation section ends with an error (outside the statement)', 'section 6 C08',
          'Coq round-trip proof against a model of the tsan Go report printer + differential check'),
  'C10': ('proof', 'C10_total, C10_lines_prefix, C10_scan_step_frame / C10_prefix_goroutines (a cut changes at most the goroutine being read), C10_error (a reader failure is never replaced by a scan error; exact rule), C10_fwd_prefix (forwarded bytes of the cut stream are a prefix, '
-         'except the unterminated fragment while looking: known finding K2, C10_K2_refuted), C10_all_cuts (every cut of one stream, by computation); correspondence at sampled/all byte offsets x 3 failure signals', 'section 6 C10',
+         'except the unterminated fragment while looking: known finding K2, C10_K2_refuted), C10_all_cuts (every cut of one stream, by computation); C10b: the states in which the LAST goroutine can no longer change (closed_state) and C10b_prefix_all_goroutines (then all goroutines of the cut run, the last included, are those of the uncut run); in the open states only the last one may differ (C10b_open_refuted); correspondence at sampled/all byte offsets x 7 failure signals incl. chunked delivery', 'section 6 C10',
          'Coq prefix-monotonicity proof over the fold characterisation + per-offset differential check'),
  'C14': ('proof', 'tagged ownership model (Model/Alias.v): C14_erasure (the tagged Aggregate is the functional one plus bookkeeping, for any spare capacity), C14_writes_fresh(_ops) (every write of Aggregate / Args.String / any operation sequence targets a freshly allocated array), '
          'C14_snapshot_unchanged, C14_reaggregate_same, C14_string_uncapped_refuted (the pre-fix Args.String wrote shared spare capacity), C14_interleave_safe / C14_concurrent_ops_safe (threads writing only their own fresh cells: every interleaving leaves the shared cells untouched and gives each thread its sequential result); '
@@ -64,7 +64,8 @@ CLAIMS = {
          'Coq proof over a provenance-tagged model of slices + alias-graph correspondence + immutability oracle'),
  'C18': ('proof', '37 theorems: C18_update_shape (exact case analysis of updateLocations for arbitrary root tables), C18_local_ends_with_rel, C18_remote_root_prefix, C18_class_table, C18_testmain_stays_stdlib, C18_longest_root_wins, C18_update_deterministic, C18_roots_backed / C18_roots_detected_from_disk '
          '(every detected root is backed by a file of the disk oracle), C18_guess_preserves, C18_find_module_*; correspondence on materialised layouts; oracle = the generating layout. A genuine defect found by the oracle (nested module never discovered) was fixed in /repo (02e5c66). '
-         'Partial: ambiguous layouts (one relative path under two roots) are outside the statement; the disk is an oracle (no symlinks, no "..")', 'section 6 C18',
+         'C18b: COMPLETENESS of guess_paths for an arbitrary disk oracle under explicit per-file unambiguity hypotheses: C18_complete_goroot / _gopath / _gopkg / _gomod (innermost module wins) / _main, C18_unresolved_unknown, with nine refuted examples showing each hypothesis is needed. '
+         'Partial: ambiguous layouts (one relative path under two roots, a second remote GOROOT, go.mod inside GOROOT/GOPATH) are outside the statement; the disk is an oracle (no symlinks, no "..")', 'section 6 C18',
          'Coq structural theorems for every disk + layout-generating differential oracle'),
  'C06': ('proof', 'C06_aggregate_oracle_independent (for well-formed snapshots the WHOLE result of Aggregate - buckets in order with merged signatures and id lists - is the same for any two permutation oracles, i.e. for every outcome of Go\'s randomised map iteration), '
          'C06_step/agg_loop_oracle_independent, C06_nonwf_refuted (hand-built ill-formed snapshots CAN depend on the oracle), C06_render_snapshot_functional, C06_pipeline_functional, and C06b_scan_snapshot_wf / C06b_pipeline_oracle_independent (scanner output IS well-formed, so scan-then-aggregate is oracle independent unconditionally), '
@@ -77,7 +78,7 @@ CLAIMS = {
          'Partial: go/parser itself is abstracted to the tree it produces (built by the harness with go/parser); the toolchain encoding is validated by the compiled programs, not proved', 'section 6 C19',
          'Coq decode-encode proof against an ABI specification + compiled-program differential check'),
  'C20': ('proof', 'C20_handler_table (exact decision table of SnapshotHandler as iffs), C20_2xx_only_if_valid, C20_invalid_is_4xx, C20_valid_get_ok, C20_atoi_* (strconv.Atoi), C20_capture (the grow-and-retry loop terminates for every int, never exceeds max(maxmem, 1 MiB), captures the dump whole iff it fits); '
-         'the parse half is C01_fidelity applied to the printer model; correspondence: status class under httptest over parameter combinations, big-process capture cases, live runtime.Stack dumps under churn (header count, known goroutines). '
+         'C20b: handler_page = validation -> capture -> scan -> guess/augment -> aggregate -> page with a CONCRETE scan_fails: C20b_refines_table, C20b_valid_complete (a valid GET on a runtime-printed dump that fits answers 200 with a page whose bucket counts add up to the goroutines of the dump: composes C01, C04, C17c), C20b_truncated, C20b_status_precedence (invalid similarity + failing snapshot = 500); the parse half is C01_fidelity applied to the printer model; correspondence: status class under httptest over parameter combinations, big-process capture cases, live runtime.Stack dumps under churn (header count, known goroutines). '
          'Partial: scheduler states, handler concurrency and runtime.Stack stopping the world are exercised (race-detector driver with concurrent requests), not modelled', 'section 6 C20',
          'Coq decision-table proof + live-process differential checks'),
 }
